@@ -662,6 +662,15 @@ def readBody (limit cl : Int) (raw : Bytes) : Option Bytes :=
   else if cl > 0 then readDeclared cl raw
   else readUnknown (unknownCap limit) raw
 
+/-- whether `decryptBody` reads a body at all depends on LENGTHS only (`len` = the number of bytes `r.Body` yields):
+a declared length over a configured limit, a declared length the body does not fill, an unknown-length body over the cap
+(`limitBytes`, or `maxBytes` = 1 MiB when none is configured) are refused. NOTE: with no limit configured a DECLARED length
+is not capped at all. -/
+def readAdmits (limit cl : Int) (len : Nat) : Bool :=
+  if limit > 0 ∧ cl > limit then false
+  else if cl > 0 then decide ((len : Int) ≥ cl)
+  else decide ((len : Int) ≤ unknownCap limit)
+
 /-- `LimitCryptionHandler` written over `readBody` (proven equal to `cryptionHandler`: `cryptionHandler_eq_viaRead`) -/
 def cryptionHandlerViaRead (C : BlockCipher) (limit : Int) (key : Bytes) (cl : Int) (raw : Bytes) (inner : Inner) : Resp :=
   if cl = 0 then flushResp C key raw (inner raw)
